@@ -28,7 +28,7 @@ for name in names:
         subprocess.run(["git", "-C", "/repo", "worktree", "add", "-q", wt, "HEAD"], check=True)
         subprocess.run(["git", "-C", wt, "apply", patch], check=True)
     try:
-        env = dict(os.environ, VERIF_REPO=wt, VERIF_SEED=os.environ.get("VERIF_SEED", "1"))
+        env = dict(os.environ, VERIF_EVIDENCE_DIR="/tmp/seedrun-evidence", VERIF_REPO=wt, VERIF_SEED=os.environ.get("VERIF_SEED", "1"))
         p = subprocess.run(["./check", prop, "--tier", "quick"], cwd=here, env=env, stdout=subprocess.PIPE, stderr=subprocess.STDOUT, text=True)
         vio = [l for l in p.stdout.splitlines() if l.startswith("VIOLATION")]
         detail = ""
